@@ -140,6 +140,24 @@ def scripted(plan):
                         rec["sends"].append(type(e).__name__)
                 elif st[0] == "raise":
                     raise RuntimeError("app")
+                elif st[0] == "raise-nested":
+                    # the failure comes out of a child task of the application's own task group (anyio style): the server
+                    # sees an exception group
+                    import sniffio
+
+                    async def child():
+                        raise RuntimeError("app child")
+
+                    if sniffio.current_async_library() == "trio":
+                        import trio
+
+                        async with trio.open_nursery() as nursery:
+                            nursery.start_soon(child)
+                    else:
+                        import asyncio
+
+                        async with asyncio.TaskGroup() as tg:
+                            tg.create_task(child())
                 elif st[0] == "return":
                     return
         finally:
@@ -178,7 +196,7 @@ def gen_h1(rng):
             steps.append(("sleep", rng.choice([0.53, 1.57, 6.13])))
         crash = rng.choice([None, None, None, "raise", "return"])
         if crash == "raise" and rng.random() < 0.5:
-            steps.append(("raise",))
+            steps.append(rng.choice([("raise",), ("raise-nested",)]))
         else:
             steps.append(("send", {"type": "http.response.start", "status": rng.choice([200, 204, 404]), "headers": [(b"x-k", b"%d" % k)]}))
             nb = rng.choice([0, 1, 3])
@@ -253,7 +271,7 @@ def gen_h2(rng):
             steps.append(("sleep", rng.choice([0.53, 3.07])))
         steps.append(("send", {"type": "http.response.start", "status": 200, "headers": [(b"x-s", b"%d" % sid)]}))
         if rng.random() < 0.2 and not (small_window and i == 0):
-            steps.append(("raise",))
+            steps.append(rng.choice([("raise",), ("raise-nested",)]))
         else:
             big = 5000 if small_window and i == 0 else rng.choice([1, 5000])
             steps.append(("send", {"type": "http.response.body", "body": b"data" * big, "more_body": False}))
